@@ -166,6 +166,19 @@ pub fn edges() -> Vec<i128> {
         v.push(i128::MIN + e);
         v.push(i128::MAX - e);
     }
+    // every power of two as a nanosecond count (what a narrower intermediate type would wrap at), both signs, +-2;
+    // the same around the second that contains +-2^63 ns, with every kind of fractional part
+    for k in 0..=126u32 {
+        for e in [-2i128, -1, 0, 1, 2] {
+            v.push((1i128 << k) + e);
+            v.push(-(1i128 << k) + e);
+        }
+    }
+    for s in [9_223_372_036i128, -9_223_372_037, 9_223_372_037, -9_223_372_036, 4_294_967_296, -4_294_967_296, 2_147_483_648, -2_147_483_648] {
+        for frac in [0i128, 1, 854_775_807, 854_775_808, 854_775_809, 145_224_192, 145_224_191, 999_999_999] {
+            v.push(s * G + frac);
+        }
+    }
     v
 }
 
